@@ -495,6 +495,24 @@ def _swapped(text: str) -> str:
     return text
 
 
+def significant_body(fn: ast.AST) -> List[ast.stmt]:
+    """Statements of a function body without those that cannot change what it computes: the docstring, `pass`, `assert`, bindings of a constant to a name that is
+    never read, and logging calls.  Rules that look at 'the first statement' or 'the only assignment' of a small function use this view."""
+    loads = {n.id for n in ast.walk(fn) if isinstance(n, ast.Name) and isinstance(n.ctx, ast.Load)}
+    out = []
+    for st in fn.body:
+        if isinstance(st, ast.Expr) and isinstance(st.value, ast.Constant):
+            continue
+        if isinstance(st, (ast.Pass, ast.Assert)):
+            continue
+        if isinstance(st, ast.Assign) and isinstance(st.value, ast.Constant) and all(isinstance(t, ast.Name) and t.id not in loads for t in st.targets):
+            continue
+        if isinstance(st, ast.Expr) and isinstance(st.value, ast.Call) and (call_name(st.value) or "").split(".")[-1] in ("debug", "info", "warning", "log"):
+            continue
+        out.append(st)
+    return out
+
+
 def has_fact(fs: Iterable[Fact], text: str, positive: bool = True) -> bool:
     t, p = _canon_fact(ast.parse(text, mode="eval").body, positive)
     t2 = _swapped(t)
